@@ -54,6 +54,22 @@ func stmtListOf(root ast.Vertex, ctx string) ([]ast.Vertex, bool) {
 				}
 			}
 		}
+	case "namespace":
+		if ns, ok := first.(*ast.StmtNamespace); ok {
+			return ns.Stmts, true
+		}
+	case "closure":
+		if e, ok := first.(*ast.StmtExpression); ok {
+			if as, ok := e.Expr.(*ast.ExprAssign); ok {
+				if cl, ok := as.Expr.(*ast.ExprClosure); ok {
+					return cl.Stmts, true
+				}
+			}
+		}
+	case "altif":
+		if s, ok := first.(*ast.StmtIf); ok {
+			return block(s.Stmt)
+		}
 	case "method":
 		if c, ok := first.(*ast.StmtClass); ok && len(c.Stmts) > 0 {
 			if m, ok := c.Stmts[0].(*ast.StmtClassMethod); ok {
